@@ -198,28 +198,36 @@ theorem nodup_of_map {α β : Type} (g : α → β) : ∀ {l : List α}, (l.map 
     simp only [List.map_cons, List.nodup_cons] at h ⊢
     exact ⟨fun ha => h.1 (List.mem_map.mpr ⟨a, ha, rfl⟩), nodup_of_map g h.2⟩
 
-/-- **the journal of a layout**: the file system holding the rendered files of the layout loads, from the root, the
-directives of the layout file by file, depth first -/
-theorem journalOf_layout (pad : Nat) (t : LTree) (hdirs : ∀ x ∈ t.journal, PrintableDir x)
-    (hedges : ∀ e ∈ t.edges, '"' ∉ e.2.1.toList ∧ resolve e.1 e.2.1 = e.2.2)
-    (hpaths : (t.nodes.map (fun n => pathClean n.1)).Nodup) :
-    journalOf (t.fs pad) t.path = .ok t.journal := by
+/-- the file system made of exactly the files of the layout holds every file under its path, provided the paths are
+pairwise different -/
+theorem fs_reads (pad : Nat) (t : LTree) (hpaths : (t.nodes.map (fun n => pathClean n.1)).Nodup) :
+    ∀ n ∈ t.nodes, (t.fs pad).read n.1 = some (fileBytes (n.2.text pad)) := by
   have hnd : ((t.files pad).map (·.1)).Nodup := by
     have h1 : (t.nodes.map (·.1)).Nodup := by
       have : t.nodes.map (fun n => pathClean n.1) = (t.nodes.map (·.1)).map pathClean := by rw [List.map_map]; rfl
       rw [this] at hpaths
       exact nodup_of_map pathClean hpaths
     simpa [LTree.files, List.map_map, Function.comp_def] using h1
-  have hok : ∀ n ∈ t.nodes, NodeOK (t.fs pad) pad n := by
+  intro n hn
+  show (t.files pad).lookup n.1 = _
+  exact lookup_of_nodup hnd (List.mem_map.mpr ⟨n, hn, rfl⟩)
+
+/-- **the journal of a layout**: every file system that holds the rendered files of the layout under their paths (and
+whatever else) loads, from the root, the directives of the layout file by file, depth first -/
+theorem journalOf_layout (pad : Nat) (t : LTree) (fs : FileSys)
+    (hfs : ∀ n ∈ t.nodes, fs.read n.1 = some (fileBytes (n.2.text pad)))
+    (hdirs : ∀ x ∈ t.journal, PrintableDir x)
+    (hedges : ∀ e ∈ t.edges, '"' ∉ e.2.1.toList ∧ resolve e.1 e.2.1 = e.2.2)
+    (hpaths : (t.nodes.map (fun n => pathClean n.1)).Nodup) :
+    journalOf fs t.path = .ok t.journal := by
+  have hok : ∀ n ∈ t.nodes, NodeOK fs pad n := by
     intro n hn
-    refine ⟨?_, ?_, ?_⟩
-    · show (t.files pad).lookup n.1 = _
-      exact lookup_of_nodup hnd (List.mem_map.mpr ⟨n, hn, rfl⟩)
+    refine ⟨hfs n hn, ?_, ?_⟩
     · intro x hx
       exact hdirs x (List.mem_flatMap.mpr ⟨n, hn, hx⟩)
     · intro i hi
       exact hedges (n.1, i.1, i.2.path) (List.mem_flatMap.mpr ⟨n, hn, List.mem_map.mpr ⟨i, hi, rfl⟩⟩)
-  obtain ⟨files, hl, hj⟩ := load_tree (t.fs pad) pad t hok hpaths [] (by intro a ha; cases ha)
+  obtain ⟨files, hl, hj⟩ := load_tree fs pad t hok hpaths [] (by intro a ha; cases ha)
   unfold journalOf load
   rw [hl]
   exact hj
